@@ -111,7 +111,8 @@ def run_check(prop, tier, seed, args):
         pr["min_execs"], pr["min_wall"] = (150, 25.0) if tier == "quick" else (400, 90.0)
         if tier != "quick":
             # deeper local enumeration in the thorough tier
-            pr.update({"enum_max_execs": 120, "cap_gen": 100, "cap_gstate": 150})
+            pr.update({"enum_max_execs": 120, "cap_gen": 100, "cap_gstate": 150,
+                       "enum_max_wall": 400.0})
     wall_cap = args.wall if args.wall else (600 if tier == "quick" else 3 * 3600)
     deadline = t0 + wall_cap
     agg = {
